@@ -486,12 +486,17 @@ def check_roundtrip(cls, recipe, rec=None):
         raise Violation("C14:partial-roundtrip-differs:after-merge-with-empty", f"{_show(vals(o))} -> {_show(vals(back2))}", "same object")
     # undeclared extra fields (kept by schemas with Extra.allow) belong to the object, too
     if getattr(cls.__config__, "extra", None) is Extra.allow and isinstance(recipe, dict):
-        extras = {"xExtra": [1, "two"], "_comment": "keep me", "x_falsy": 0}
+        extras = {"xExtra": [1, "two"], "_comment": "keep me", "x_falsy": 0, "cls": ["v"], "_fields_set": "fs"}
         try:
             oe = cls.parse_obj(G.realize({**recipe, **extras}))
-            be = cls.Partial.to_partial(oe).from_partial()
         except (ValidationError, ValueError, TypeError):
-            oe = be = None
+            oe = None
+        if oe is not None:
+            try:
+                be = cls.Partial.to_partial(oe).from_partial()
+            except Exception as e:  # noqa: BLE001
+                raise Violation(f"C14:partial-roundtrip-raises:{type(e).__name__}:extra-fields", f"object with the extra fields {sorted(extras)}: "
+                                f"{type(e).__name__}: {str(e)[:200]}", "o -> partial -> o")
         if oe is not None:
             lost = sorted(k for k, v in extras.items() if oe.__dict__.get(k) == v and be.__dict__.get(k, "<missing>") != v)
             if lost:
